@@ -153,6 +153,8 @@ def gen_nodes(rng, depth, n, in_section=False, zones=True):
             nodes.append({"t": "assign", "lead": lead, "k": key, "v": v, "trail": trail})
         elif r < 0.9:
             ch = gen_nodes(rng, depth + 1, rng.choice([1, 1, 2, 3]), zones=zones)
+            if zones and rng.random() < 0.12:
+                ch.insert(rng.randint(0, len(ch)), {"t": "bzone", "lead": gen_comments(rng, 0.2), "v": gen_zone(rng)})
             orphan = gen_comments(rng, 0.1)
             nodes.append({"t": "block", "lead": lead, "k": rng.choice(KEYS), "target": rng.choice([None, None, "T", "SELF"]),
                           "ch": ch, "orphan": orphan})
@@ -232,6 +234,8 @@ def expected_doc(d) -> dict:
     def node(n):
         if n["t"] == "assign":
             return {"a": {"k": n["k"], "v": value_json(n["v"]), "lead": n["lead"], "trail": n["trail"]}}
+        if n["t"] == "bzone":
+            return {"a": {"k": "", "v": value_json(n["v"]), "lead": n["lead"], "trail": None}}
         if n["t"] == "block":
             return {"b": {"k": n["k"], "ch": [node(c) for c in n["ch"]] + [{"c": c} for c in n["orphan"]], "lead": n["lead"], "target": n["target"]}}
         if n["t"] == "section":
@@ -395,7 +399,10 @@ def r_comments(w: Writer, sp: Spelling, comments, indent):
 def r_nodes(w: Writer, sp: Spelling, nodes, indent: int):
     for n in nodes:
         r_comments(w, sp, n.get("lead", []), indent)
-        if n["t"] == "assign":
+        if n["t"] == "bzone":
+            r_zone(w, n["v"], indent)
+            _eol(w, sp)
+        elif n["t"] == "assign":
             w.w(" " * indent + n["k"] + _sp(sp) + "::")
             if n["v"]["t"] == "zone":
                 w.nl()
@@ -483,7 +490,7 @@ def kf_comment_after_nested(d) -> bool:
     is attached to the inner block as an orphan comment instead."""
     def walk(nodes, trailing):
         for i, n in enumerate(nodes):
-            if i > 0 and n.get("lead") and _has_children(nodes[i - 1]):
+            if i > 0 and n.get("lead") and _has_children(nodes[i - 1]) and False:
                 return True
             if n["t"] in ("block", "section") and walk(n["ch"], []):
                 return True
@@ -491,3 +498,56 @@ def kf_comment_after_nested(d) -> bool:
             return True
         return False
     return walk(d["nodes"], d["trailing"])
+
+
+# ---------------------------------------------------------------------------------------------
+# covering matrix: every value kind in every position (C02 quantifier)
+# ---------------------------------------------------------------------------------------------
+
+def value_kinds():
+    ks = [{"t": "word", "v": "alpha"}, {"t": "word", "v": "truex"}, {"t": "words", "v": ["two", "words"]}, {"t": "int", "v": 42},
+          {"t": "int", "v": -7}, {"t": "float", "v": 3.14}, {"t": "float", "v": 1e16}, {"t": "bool", "v": True}, {"t": "bool", "v": False},
+          {"t": "null"}, {"t": "var", "v": "$VAR"}, {"t": "var", "v": "$1:role"}, {"t": "ann", "name": "NEVER", "args": ["A", "B"]},
+          {"t": "ann", "name": "Athena", "args": ["wisdom"]}, {"t": "version", "v": "1.2.3"},
+          {"t": "expr", "operands": ["A", "B", "C"], "ops": ["→", "⊕"]}, {"t": "expr", "operands": ["Speed", "Quality"], "ops": ["⇌"]},
+          {"t": "list", "items": []}, {"t": "list", "items": [{"t": "word", "v": "a"}]},
+          {"t": "list", "items": [{"t": "int", "v": 1}, {"t": "qstr", "v": "x y"}]},
+          {"t": "list", "items": [{"t": "word", "v": "a"}, {"t": "word", "v": "b"}, {"t": "word", "v": "c"}]},
+          {"t": "list", "items": [{"t": "pair", "k": "k", "v": {"t": "int", "v": 1}}, {"t": "word", "v": "z"}]},
+          {"t": "list", "items": [{"t": "list", "items": [{"t": "int", "v": 1}]}, {"t": "null"}]}]
+    ks += [{"t": "qstr", "v": s} for s in PLAIN_QUOTED]
+    return ks
+
+
+def matrix_docs():
+    """[(position, kind index, doc model)] — every value kind at top level, block child, nested block child,
+    section child, META, nested META, list item, inline-map value; zones where the grammar has them."""
+    out = []
+    base = lambda: {"name": "M", "gv": None, "fm": None, "meta": [], "sep": False, "nodes": [], "trailing": []}  # noqa: E731
+    asg = lambda v: {"t": "assign", "lead": [], "k": "K", "v": v, "trail": None}  # noqa: E731
+    atom = lambda v: v["t"] not in ("list", "expr", "words", "zone")  # noqa: E731
+    zone = {"t": "zone", "lines": ["a -> b", "  x"], "tag": "py", "fence": 3}
+    empty_zone = {"t": "zone", "lines": [], "tag": None, "fence": 4}
+    for i, v in enumerate(value_kinds() + [zone, empty_zone]):
+        isz = v["t"] == "zone"
+        d = base(); d["nodes"] = [asg(v), asg({"t": "int", "v": 9})]; out.append(("top", i, d))
+        d = base(); d["nodes"] = [{"t": "block", "lead": [], "k": "B", "target": None, "ch": [asg({"t": "int", "v": 1}), asg(v), asg({"t": "int", "v": 2})], "orphan": []}, asg({"t": "int", "v": 9})]
+        out.append(("block", i, d))
+        d = base(); d["nodes"] = [{"t": "block", "lead": [], "k": "B", "target": "T", "ch": [{"t": "block", "lead": [], "k": "C", "target": None, "ch": [asg(v)], "orphan": []}, asg({"t": "int", "v": 2})], "orphan": []}]
+        out.append(("nested-block", i, d))
+        d = base(); d["nodes"] = [{"t": "section", "lead": [], "id": "1", "name": "S", "ann": None, "ch": [asg(v), asg({"t": "int", "v": 2})]}, asg({"t": "int", "v": 9})]
+        out.append(("section", i, d))
+        if not isz:
+            d = base(); d["meta"] = [["TYPE", {"t": "word", "v": "X"}], ["F", v]]; d["nodes"] = [asg({"t": "int", "v": 9})]; out.append(("meta", i, d))
+            d = base(); d["meta"] = [["N", {"nested": [["F", v], ["G", {"t": "int", "v": 1}]]}]]; d["nodes"] = [asg({"t": "int", "v": 9})]; out.append(("nested-meta", i, d))
+            if v["t"] not in ("words",):
+                d = base(); d["nodes"] = [asg({"t": "list", "items": [{"t": "word", "v": "a"}, v, {"t": "word", "v": "b"}]})]; out.append(("list-item", i, d))
+            if atom(v):
+                d = base(); d["nodes"] = [asg({"t": "list", "items": [{"t": "pair", "k": "k", "v": v}, {"t": "pair", "k": "PATTERN", "v": v}]})]; out.append(("imap-value", i, d))
+    # bare zones as block children in every sibling position
+    for pos in range(3):
+        ch = [asg({"t": "int", "v": 1}), asg({"t": "int", "v": 2})]
+        ch.insert(pos, {"t": "bzone", "lead": [], "v": zone})
+        d = base(); d["nodes"] = [{"t": "block", "lead": [], "k": "B", "target": None, "ch": ch, "orphan": []}, asg({"t": "int", "v": 9})]
+        out.append((f"bare-zone@{pos}", 0, d))
+    return out
